@@ -11,9 +11,12 @@ VERIF = os.path.dirname(os.path.dirname(os.path.abspath(__file__)))
 REPO = os.environ.get("WALLEYE_REPO", "/repo")
 BUILD = os.path.join(VERIF, "build")
 LEAN = os.path.join(VERIF, "lean")
-WVH = os.path.join(BUILD, "harness-target", "debug", "wvh")
+# scratch trees (WALLEYE_REPO, used only when evaluating seeded changes) get their own target
+# directories: cargo's mtime fingerprints cannot tell two source trees of the same package apart
+_SUFFIX = "" if REPO == "/repo" else "-" + hashlib.sha256(REPO.encode()).hexdigest()[:8]
+WVH = os.path.join(BUILD, "harness-target" + _SUFFIX, "debug", "wvh")
 WVM = os.path.join(LEAN, ".lake", "build", "bin", "wvm")
-ENGINE = os.path.join(BUILD, "repo-target", "release", "walleye")
+ENGINE = os.path.join(BUILD, "repo-target" + _SUFFIX, "release", "walleye")
 NCPU = os.cpu_count() or 4
 
 ALLOWED_AXIOMS = {"propext", "Classical.choice", "Quot.sound"}
@@ -52,7 +55,7 @@ def build_harness(bs):
         with open(lock_src) as f, open(lock_dst, "w") as g:
             g.write(f.read())
     r = sh(["cargo", "build", "--offline"], cwd=os.path.join(VERIF, "harness"),
-           env={"CARGO_TARGET_DIR": os.path.join(BUILD, "harness-target"), "WALLEYE_REPO": REPO})
+           env={"CARGO_TARGET_DIR": os.path.join(BUILD, "harness-target" + _SUFFIX), "WALLEYE_REPO": REPO})
     if r.returncode != 0:
         bs.harness_error = (r.stderr or r.stdout)[-4000:]
         return False
@@ -71,7 +74,7 @@ def build_harness(bs):
 def build_engine(bs):
     """the real release binary, hooks off, for black-box sessions"""
     r = sh(["cargo", "build", "--release", "--offline"], cwd=REPO,
-           env={"CARGO_TARGET_DIR": os.path.join(BUILD, "repo-target")})
+           env={"CARGO_TARGET_DIR": os.path.join(BUILD, "repo-target" + _SUFFIX)})
     if r.returncode != 0:
         bs.engine_error = (r.stderr or r.stdout)[-4000:]
         return False
